@@ -20,3 +20,5 @@ func verifSkipMicroFix(op *OutPt) bool { return false }
 func verifSplitArea(area1, area2 float64) float64 { return area2 }
 
 func verifGate(obj any) {}
+
+func verifSweepSnapshot(c *clipperBase, y int64) {}
